@@ -12,6 +12,7 @@ from ..core import (
     call_name,
     calls_in,
     dotted,
+    closure_functions,
     enclosing_class,
     enclosing_function,
     is_self_attr,
@@ -494,6 +495,22 @@ def r6_weights_in_one_unit(ctx: Context) -> None:
     ctx.floor("C17.R6", "critical-path sums over get_longest_path", n2, 2)
 
 
+def r6b_critical_path_is_runtime(ctx: Context) -> None:
+    ctx.rule("C17.R6b", "JobGraph.critical_path_runtime is the weight of the heaviest path in runtimes: nothing it sums (directly or through a "
+                        "helper of the class) substitutes a job's SLO for its runtime - that is the completion time, a different quantity")
+    jg = ctx.repo.mod("workload/jobs.py").cls("JobGraph")
+    cp = methods(jg).get("critical_path_runtime")
+    if cp is None:
+        raise AnalysisError("JobGraph.critical_path_runtime not found")
+    fns = closure_functions(cp)
+    sums = [c for f in fns for c in calls_in(f, "sum")]
+    ctx.floor("C17.R6b", "sum over the longest path reached from JobGraph.critical_path_runtime", len(sums), 1)
+    slo = [norm(x)[:50] for f in fns for x in ast.walk(f) if isinstance(x, ast.Attribute) and x.attr in ("slo", "_slo")]
+    ctx.check(not slo, "C17.R6b", "JobGraph.critical_path_runtime|sums runtimes, not SLOs", loc(cp), "no SLO read",
+              f"the critical-path runtime is computed through code that reads {sorted(set(slo))}: for a job with an SLO the reported critical path "
+              "is not the weight of any path of the graph in runtimes")
+
+
 MAPS = ("_graph", "_parent_graph")
 MUTATING_CALLS = ("append", "extend", "remove", "pop", "clear", "update", "insert", "setdefault", "popitem")
 
@@ -572,5 +589,6 @@ def run(ctx: Context) -> None:
     ctx.isolate(r5_breadth_first)
     ctx.isolate(r5b_bfs_dependency_on_start)
     ctx.isolate(r6_weights_in_one_unit)
+    ctx.isolate(r6b_critical_path_is_runtime)
     ctx.isolate(r7_adjacency_maps_in_step)
     ctx.isolate(cache_coherence, "C17.R8", ("Graph", "TaskGraph", "JobGraph"), "orders, depths, paths and critical-path runtimes are answers about the current graph", 3)
